@@ -13,6 +13,9 @@ CHECKS = {
  "C03": ("GitAiCore with the destructive vocabulary (hard reset, path checkout, restore, stash, soft/mixed reset) explored exhaustively; C03_Notes / C03_Blame are evaluated by TLC on every observed state of the replayed behaviours", "DESIGN.md 5 C03"),
  "C04": ("GitAiCore with staging by file and by hunk and partial commits (index, paths): every partition within the bounds is explored; C02_Carried / C01_OnlyAdded / C03_Notes decide that carried lines are listed once, for the right session, in the commit that contains them", "DESIGN.md 5 C04"),
  "C05": ("C05_WellFormed is evaluated by TLC on every observed note after every step of behaviours mixing commit, partial commit, reset, stash and checkout, over six file-name families; the structural flags come from the harness's independent parser of the published note grammar", "DESIGN.md 5 C05"),
+ "C12": ("twin execution: every selected behaviour (commits, partial commits, rebase, cherry-pick, squash, amend) is run once in a clean configuration and once under a covering family of git configurations (diff prefixes, external diff, textconv, colour, rename detection, algorithm, quotePath, pager, blame/notes/grep settings, GIT_EXTERNAL_DIFF) and start directories (subdirectory, -C); TLC evaluates Twin_Obs / Twin_Equiv / Twin_Blame on the pair of observed note and blame projections", "DESIGN.md 5 C12"),
+ "C13": ("twin execution: the same behaviours run through the git-ai wrapper and through managed git hooks with plain git; TLC evaluates Twin_Obs / Twin_Equiv / Twin_Blame on the two observed projections (commit, partial commit, amend, rebase, cherry-pick, squash, reset, stash, checkout)", "DESIGN.md 5 C13"),
+ "C15": ("twin execution with hook H3: each rebase / cherry-pick behaviour runs with the note-remapping shortcut and with the shortcut forced to decline; TLC evaluates Twin_Obs (observable part), Twin_Exact (line sets, prompts) and Twin_Blame on the two observed notes", "DESIGN.md 5 C15"),
  "C14": ("behaviours decorated with read-only git commands, repeated checkpoints and redundant human checkpoints; the action property C14_Stutter and C01_Exact are evaluated by TLC on the observed states", "DESIGN.md 5 C14"),
 }
 REASON_TODO = "no check registered yet in this round (the specification for it is still being written; see DESIGN.md 9)"
@@ -22,7 +25,7 @@ m = {
  "hooks": {"guard": "git_ai_verif (rustc --cfg)",
            "enable": "scripts/build.sh: RUSTFLAGS='--cfg git_ai_verif --check-cfg cfg(git_ai_verif)' cargo build --offline --features test-support --bin git-ai --target-dir /verif/harness/target/gitai",
            "baseline_off_cmd": "cd /repo && cargo nextest run --workspace --no-fail-fast --tool-config-file pb:/w/lib/nextest.toml --profile pb --test-threads 8 --offline",
-           "source_commits": [], "add_only": True},
+           "source_commits": ["77aecccd"], "add_only": True},
  "engines": [{"name": "gitai-core", "path": "spec/GitAiCore.tla, spec/MC_Core.tla, harness/gaih",
               "serves_properties": sorted(CHECKS),
               "kind_free_text": "explicit TLA+ model of git-ai in one clone (ground truth by line identity + mechanism transcribed from the code with named as-built deviations); TLC explores it exhaustively and emits replay scripts; a python driver runs them against the binary built from /repo and projects the real repository onto the model's variables; TLC validates the recorded traces, evaluating the property clauses on the observed states and reporting model drift"}],
